@@ -220,6 +220,25 @@ def stage_oracle(ctx: Ctx, progs):
                         pseg_ok = lines[pl[0]][pl[1]] == '(' and lines[pl[2]][pl[3] - 1] == ')'
                         if not pseg_ok:
                             ctx.violation(f'pars-loc|{name}', 'pars() location does not start with ( and end with )', {'src': src, 'node': name, 'pars': list(pl)})
+        # (5b) pars() is a function of (node, shared): asking with one value of `shared` never changes the answer for another (the answers are cached
+        #      per node): one tree asked with all three values in random order, repeatedly, vs three trees each asked with a single value
+        try:
+            singles = {sh: [(tuple(p) if (p := g.pars(shared=sh)) is not None else None, getattr(p, 'n', None))
+                            for g in fst.FST(src, 'exec').walk(True) if isinstance(g.a, (ast.expr, ast.pattern))] for sh in (None, False, True)}
+            nodes_p = [g for g in root.walk(True) if isinstance(g.a, (ast.expr, ast.pattern))]
+            for i, g in enumerate(nodes_p):
+                order = [None, False, True, rng.choice([None, False, True])]
+                rng.shuffle(order)
+                for sh in order:
+                    p = g.pars(shared=sh)
+                    got = (tuple(p) if p is not None else None, getattr(p, 'n', None))
+                    if got != singles[sh][i]:
+                        ctx.violation(f'pars-history|{type(g.a).__name__}|shared={sh}', 'pars(shared=...) depends on which pars() queries were made before on the same node',
+                                      {'src': src, 'node': type(g.a).__name__, 'loc': list(g.loc), 'order': [repr(o) for o in order], 'shared': repr(sh),
+                                       'got': repr(got), 'asked_alone': repr(singles[sh][i])})
+                        break
+        except Exception as e:
+            ctx.broken.append({'kind': 'harness', 'name': 'pars-history', 'detail': repr(e)[:300]})
         # (6) by-location searches vs brute force
         located = [(f, f.loc) for f in root.walk('loc') if f.loc is not None]
         for _ in range(ctx.scale(25, 200)):
